@@ -268,6 +268,18 @@ func applyOp(root protoreflect.Message, op ROp, hasGetters bool) (ret RRet) {
 		})
 		sort.Ints(nums) // duplicates (a field visited twice) stay visible in the list
 		return RRet{"nums", nums}
+	case "RangeFirst":
+		calls := 0
+		m.Range(func(protoreflect.FieldDescriptor, protoreflect.Value) bool { calls++; return false })
+		return rInt(calls)
+	case "MRangeFirst":
+		calls := 0
+		mp().Range(func(protoreflect.MapKey, protoreflect.Value) bool { calls++; return false })
+		return rInt(calls)
+	case "SetUnknownHold":
+		held := m.GetUnknown()
+		m.SetUnknown(proj.ToBytes(op.U))
+		return RRet{"bytes", proj.Bytes(held)}
 	case "GetUnknown":
 		return RRet{"bytes", proj.Bytes(m.GetUnknown())}
 	case "SetUnknown":
